@@ -294,6 +294,24 @@ def random_history(rng, length=40):
             h.append(cc(ch, rng.choice([7, 10, 11, 74, 91]), rng.randrange(128)))
         elif r < 0.98 and not vib and rng.random() < 0.3:
             vib = True; h.append(cc(ch, 1, rng.choice([1, 64, 127])))
-        else:
+        elif r < 0.99:
             h.append(bend(ch, 8192))
+        else:
+            # reset all controllers: the bend range falls back to 2 semitones, the wheel is centred
+            h += [cc(ch, 121, 0), bend(ch, rng.choice([0, 16383, rng.randrange(16384)]))]
     return h
+
+
+def reset_histories(fams=(0, 1)):
+    """CC121 after a non-default bend range: later bends and notes use the default range again (until the next RPN 0
+    data entry), on every channel kind"""
+    out = []
+    for fam in fams:
+        for ch in (0, 1, 9):
+            key = 40 if ch == 9 else 60
+            for (msb, lsb) in [(12, 0), (0, 64), (24, 0), (2, 0), (1, 100)]:
+                h = [init(fam, 1)] + rpn_range(ch, msb, lsb) + [on(ch, key), bend(ch, 16383), cc(ch, 121, 0),
+                     bend(ch, 16383), bend(ch, 0), off(ch, key), bend(ch, 12000), on(ch, key), off(ch, key),
+                     cc(ch, 38, 64), bend(ch, 1000), on(ch, key), cc(ch, 6, 7), bend(ch, 15000), cc(ch, 121, 0), bend(ch, 15000), off(ch, key)]
+                out.append(h)
+    return out
